@@ -24,6 +24,13 @@ func runLine(h *harness, out *common.Out, fields []string) {
 			return
 		}
 		emitReq(h, out, c)
+	case "add":
+		c, err := parseAddCase(fields[1:])
+		if err != nil {
+			out.Line("# bad corpus line (%v): %s", err, strings.Join(fields, " "))
+			return
+		}
+		emitAdd(h, out, c)
 	case "cli":
 		c, err := parseCliCase(fields[1:])
 		if err != nil {
@@ -33,6 +40,26 @@ func runLine(h *harness, out *common.Out, fields []string) {
 		emitCli(h, out, c)
 	default:
 		out.Line("# unknown case kind %s", fields[0])
+	}
+}
+
+func emitAdd(h *harness, out *common.Out, c addCase) {
+	var res string
+	func() {
+		defer func() {
+			if p := recover(); p != nil {
+				res = fmt.Sprintf("st=0 body=d0 tr=0 root=- ops=panic:%v", strings.ReplaceAll(fmt.Sprint(p), " ", "_"))
+			}
+		}()
+		r, err := h.execAdd(c)
+		if err != nil {
+			out.Line("# inconclusive %s (%s)", c.inputTokens(), strings.ReplaceAll(err.Error(), "\n", " "))
+			return
+		}
+		res = r
+	}()
+	if res != "" {
+		out.Line("C11 %s => %s", c.inputTokens(), res)
 	}
 }
 
@@ -135,6 +162,19 @@ func main() {
 				emitReq(h, out, sys[k])
 			} else {
 				emitReq(h, out, genReq(base.Fork(uint64(k))))
+			}
+		}
+	case "add":
+		sys := sysAdd()
+		total := len(sys) + n
+		for k := 0; k < total; k++ {
+			if args.Only >= 0 && k != args.Only {
+				continue
+			}
+			if k < len(sys) {
+				emitAdd(h, out, sys[k])
+			} else {
+				emitAdd(h, out, genAdd(base.Fork(uint64(k))))
 			}
 		}
 	case "client":
